@@ -76,7 +76,30 @@ func WalkPrefix(p *core.Prog, r *core.Report) {
 		k++
 		key := fmt.Sprintf("gts.Regions.Resize|consume#%d(%s)", k, types.ExprString(as.Lhs[0]))
 		pos := p.Pos(as.Pos())
+		// the length subtracted must be the one the condition tested: nothing the expression mentions
+		// is stepped between the test and the subtraction
+		moved := ""
+		ast.Inspect(loop.Body, func(m ast.Node) bool {
+			if m == nil || m.Pos() >= as.Pos() || moved != "" {
+				return m == nil || m.Pos() < as.Pos()
+			}
+			var lhs []ast.Expr
+			switch y := m.(type) {
+			case *ast.IncDecStmt:
+				lhs = []ast.Expr{y.X}
+			case *ast.AssignStmt:
+				lhs = y.Lhs
+			}
+			for _, l := range lhs {
+				if o := core.ObjOf(info, l); o != nil && o != x && core.UsesObj(info, as.Rhs[0], o) {
+					moved = o.Name()
+				}
+			}
+			return true
+		})
 		switch {
+		case moved != "":
+			r.Bad("WALK-PREFIX", key, pos, "`"+moved+"` is stepped between the test `"+types.ExprString(as.Rhs[0])+" < "+x.Name()+"` and the subtraction of `"+types.ExprString(as.Rhs[0])+"`: the offset is reduced by the length of the segment being entered, not of the one being left (segments of unequal length put the resized end in the wrong place)")
 		case guard == nil && loop.Cond != nil && hasLess(loop.Cond, as.Rhs[0], x):
 			r.Ok("WALK-PREFIX", key, pos, "the loop runs only while the current segment is shorter than the offset")
 		case guard != nil && hasLess(guard.Cond, as.Rhs[0], x):
